@@ -93,29 +93,80 @@ def classify_access(n: ast.AST, parent: ast.AST | None, m) -> str | None:  # noq
     return None
 
 
-TEMPLATE_ALLOWED = [
-    r"state\.input\.startswith\([^,()]+(\([^()]*\))?, [\w.]+\)", r"\.match\(state\.input, state\.pos\)", r"len\(state\.input\)", r"state\.input\[\w+ ?: ?state\.pos\]",
-    r"Pair\(\s*state\.input,", r"\w+ = state\.input$", r"\w+\.find\(\w+, state\.pos\)",
-]
+def _template_access_forms(tree: ast.AST) -> list[tuple[str, str | None]]:
+    """(source text, form or None) for every use of the input string in emitted code - read on the syntax tree, so
+    that an equivalent spelling (an end bound on find, an alias, a different temporary) is the same form."""
+    parents: dict[ast.AST, ast.AST] = {}
+    for p_ in ast.walk(tree):
+        for c in ast.iter_child_nodes(p_):
+            parents[c] = p_
+    aliases = {n.targets[0].id for n in ast.walk(tree) if isinstance(n, ast.Assign) and len(n.targets) == 1 and isinstance(n.targets[0], ast.Name) and ast.unparse(n.value) == "state.input"}
+
+    def is_input(e: ast.AST) -> bool:
+        return ast.unparse(e) == "state.input" or (isinstance(e, ast.Name) and e.id in aliases and isinstance(e.ctx, ast.Load))
+
+    out: list[tuple[str, str | None]] = []
+    for n in ast.walk(tree):
+        if not is_input(n):
+            continue
+        par = parents.get(n)
+        if isinstance(n, ast.Attribute) and isinstance(par, ast.Attribute):
+            pass
+        form: str | None = None
+        if isinstance(par, ast.Attribute) and par.value is n:
+            call = parents.get(par)
+            if isinstance(call, ast.Call) and call.func is par:
+                if par.attr == "startswith" and len(call.args) == 2:
+                    form = "startswith(x, pos)"
+                elif par.attr in ("find", "rfind") and len(call.args) >= 2:
+                    form = "find(x, pos[, end])"
+            out.append((ast.unparse(call if isinstance(call, ast.Call) else par), form))
+            continue
+        if isinstance(par, ast.Call) and n in par.args:
+            f = ast.unparse(par.func)
+            if f == "len":
+                form = "len(input)"
+            elif f.endswith((".match", ".fullmatch", ".search")) and len(par.args) >= 2 and par.args[0] is n:
+                form = "pattern.match(input, pos)"
+            elif f == "Pair":
+                form = "Pair(input, ...)"
+            out.append((ast.unparse(par), form))
+            continue
+        if isinstance(par, ast.Subscript) and par.value is n:
+            if isinstance(par.slice, ast.Slice) and par.slice.lower is not None:
+                form = "input[a:b]"
+            out.append((ast.unparse(par), form))
+            continue
+        if isinstance(par, ast.Assign) and par.value is n:
+            out.append((ast.unparse(par), "alias"))
+            continue
+        if isinstance(par, ast.keyword):
+            out.append((ast.unparse(parents.get(par, par)), "Pair(input_=input, ...)" if ast.unparse(getattr(parents.get(par), "func", par)) == "Pair" else None))
+            continue
+        out.append((ast.unparse(par) if par is not None else ast.unparse(n), None))
+    return out
 
 
 def template_accesses(check: Check, rep) -> None:
+    import textwrap
+
     seen = set()
     for _label, sk in rep.skeleton_sources:
-        for line in sk.source.split("\n"):
-            if "state.input" not in line and ".find(" not in line:
-                continue
-            key = (sk.construct, line.strip())
+        if "state.input" not in sk.source:
+            continue
+        try:
+            tree = ast.parse(textwrap.dedent(sk.source))
+        except SyntaxError:
+            continue  # C01 SYNTAX
+        for text, form in _template_access_forms(tree):
+            key = (sk.construct, text)
             if key in seen:
                 continue
             seen.add(key)
             check.count("template_input_lines")
-            residue = line
-            for pat in TEMPLATE_ALLOWED:
-                residue = re.sub(pat, "", residue)
-            ok = "state.input" not in residue and ".find(" not in residue
-            check.oblige("INPUT-ACCESS", sk.construct, "template reads the input position-relatively" if ok else f"template reads the input outside the position-relative list: {line.strip()[:70]}", ok,
-                         finding=Finding("INPUT-ACCESS", sk.construct, f"template reads the input outside the position-relative list: {line.strip()[:70]}", f"{sk.construct.split('::')[-1]} emits `{line.strip()}`", {}))
+            ok = form is not None
+            check.oblige("INPUT-ACCESS", sk.construct, f"emitted code reads the input position-relatively ({form})" if ok else f"emitted code reads the input outside the position-relative forms: {text[:70]}", ok,
+                         finding=Finding("INPUT-ACCESS", sk.construct, f"emitted code reads the input outside the position-relative forms: {text[:70]}", f"{sk.construct.split('::')[-1]} emits `{text}`", {}))
 
 
 def pattern_fragments(check: Check, repo) -> None:
